@@ -1108,6 +1108,8 @@ def from_text(
                     edigits += 1
                     if edigits == 3:
                         escaping = False
+                        if total > 255:
+                            raise BadEscape
                         label += struct.pack("!B", total)
             elif byte_ == b".":
                 if len(label) == 0:
